@@ -21,7 +21,8 @@ pub struct Hdrs {
 }
 
 const CP_FORMS: &[(&str, &str)] = &[("plain", "T"), ("qualified", "m::T"), ("generic", "T<i32>"), ("turbofish", "T::<i32>"), ("tuple", "(i32, i32)"), ("deep", "a::b::T<m::X, i32>"), ("self", "S")];
-const CP2_FORMS: &[(&str, &str)] = &[("plain", "U"), ("qualified", "m::U")];
+// the third form shares its LAST path segment with the first counterpart (`T` / `m::T` vs `n::T`): still another type (seed C04-09)
+const CP2_FORMS: &[(&str, &str)] = &[("plain", "U"), ("qualified", "m::U"), ("same-last-segment", "n::T")];
 const ER_FORMS: &[(&str, &str)] = &[("plain", "Er"), ("qualified", "m::Er"), ("generic", "Er<i32>"), ("qualified-turbofish", "m::Er::<i32>")];
 
 fn norm_ty(s: &str) -> String {
